@@ -166,6 +166,8 @@ def check_header_decode(ctx, rule, cls_name, meth_name, api, require_all_accepte
         ok = isinstance(length, (bits.SymInt, int)) and bits.as_sym(length).same(exp_len)
         ctx.ob(rule, q, ok, f"n={n}: length = big-endian value of the next {n} byte(s)" if ok else f"n={n}: length is {length!r}, expected the big-endian value of the next {n} bytes", key=f"length n={n}", where=f.where)
         if api == "variables":
+            if isinstance(pos, bits.SymInt) and pos.is_const():
+                pos = pos.value()  # a constant that went through bit arithmetic (`1 + (b & 3)` with known b)
             ok = isinstance(pos, int) and pos == 1 + n
             ctx.ob(rule, q, ok, f"n={n}: the cursor moves past format byte and {n} length byte(s)" if ok else f"n={n}: returned position is {pos!r}, expected start + {1 + n}", key=f"cursor n={n}", where=f.where)
     # the fixed-type check of the variables API: match accepted, mismatch refused
@@ -220,7 +222,8 @@ def check_roundtrip(ctx, rule, enc_cls, enc_meth, code_attr, dec_cls, dec_meth, 
         code, length = (val[1], val[2]) if api == "variables" else (val[0], val[1])
         ok = bits.as_sym(code).same(fc) and bits.as_sym(length).same(bits.SymInt.field("length", width))
         if api == "variables":
-            ok = ok and val[0] == len(hdr)
+            p0 = val[0].value() if isinstance(val[0], bits.SymInt) and val[0].is_const() else val[0]
+            ok = ok and p0 == len(hdr)
         ctx.ob(rule, fd.qualname, ok, f"lengths {lo}..{hi}: decode(encode(code, length)) = (code, length), cursor right after the header" if ok else
                f"lengths {lo}..{hi}: decoding the encoder's header yields code {code!r}, length {length!r}" + (f", position {val[0]}" if api == "variables" else ""), key=f"roundtrip {lo}-{hi}", where=fd.where)
 
